@@ -116,3 +116,18 @@ def _stray_eoo_present(plan):
     except W.Skip:
         return False
     return any(not tlv.well_framed(e) for e in wl.encodings)
+
+
+@classifier('sig_match')
+def sig_match(mod, plan, viol, entry):
+    """Generic narrow signature: every key of entry['match'] lists the accepted values of
+    the corresponding field of the violation signature (by position name)."""
+    names = entry.get('sig_fields', ['invariant', 'op', 'exc_cls'])
+    sig = viol['sig']
+    m = entry.get('match', {})
+    for i, name in enumerate(names):
+        if name in m:
+            val = sig[i] if i < len(sig) else None
+            if val not in m[name]:
+                return False
+    return bool(m)
